@@ -18,6 +18,7 @@ pub fn dispatch(ctx: &Ctx, rest: &[String]) -> i32 {
         "C10" => c10(ctx),
         "C18" => c18(ctx),
         "C01" | "C02" | "C07" | "C08" | "C20" => histcheck::run(ctx),
+        "C03" => c03::run(ctx),
         "C04" => c04::run(ctx),
         "C05" => c05::run(ctx),
         "C06" => c06::run(ctx),
@@ -175,6 +176,7 @@ fn c18(ctx: &Ctx) -> i32 {
     )
 }
 
+pub mod c03;
 pub mod c04;
 pub mod c05;
 pub mod c06;
